@@ -103,6 +103,10 @@ def items(tier, seed):
     for (p, o) in ((60, 60), (60, 300)):
         out.append(("audit", p, o, n, True, "none", "single", [n], True))  # save_filter_steps
         out.append(("audit", p, o, n, True, "maneuver", "each_step", list(range(1, n + 1)), True))
+    # spans of a day and more (the days part of the configured span matters) with records at non-output epochs
+    out.append(("audit", 3600, 7200, 26, True, "none", "single", [26], False))
+    out.append(("audit", 3600, 7200, 26, True, "none", "split13", [13, 26], False))
+    out.append(("audit", 3600, 3600, 25, False, "none", "single", [25], False))
     crash_n = 3 if tier == "quick" else 5
     for est in (True, False):
         for hist in ("none", "agents"):
@@ -168,6 +172,10 @@ def _audit(res, sc, saves, case, item, truth_only):
         bad = [(i, j) for i, j in zip(isos, jds) if abs(float(datetimeToJulianDate(datetime.fromisoformat(i))) - j) > 1e-8]
         chk("epoch_timestamp_matches_jd", not bad, "epochs/timestamp_jd_mismatch", observed=bad[:2])
         jdset = set(jds)
+        # every step epoch of the run has its row (records buffered at non-output steps refer to them)
+        want_iso = [(START + timedelta(seconds=k * case["physics"])).isoformat(timespec="microseconds") for k in range(case["steps"] + 1)]
+        missing_ep = [w for w in want_iso if w not in set(isos)]
+        chk("epochs_cover_every_step", not missing_ep, "epochs/step_epoch_missing", observed=missing_ep[:3], expected=len(want_iso))
         agents = {int(r[0]) for r in _rows(conn, "SELECT unique_id FROM agents")}
         # every saved epoch exists, with the recorded timestamp
         for s in saves:
